@@ -165,6 +165,8 @@ Section Closed.
     - apply closed_remove, H.
     - apply closed_reverse_loop, H.
     - apply closed_clear_loop, H.
+    - apply (Pstep s (Extend (items s))), H.
+    - apply (Pstep s (Extend (items s))), H.
   Qed.
 
   Theorem closed_xrun ops : forall s, P s -> P (xrun s ops).
@@ -397,6 +399,28 @@ Proof.
   intros n. specialize (HI' n). rewrite Ei in HI'. cbn [filter] in HI'. apply Permutation_sym, Permutation_nil in HI'. exact HI'.
 Qed.
 
+(* ---- seq.extend(seq) / seq += seq ---------------------------------------------------------------- *)
+Lemma extend_all_good xs : forall s, Forall (fun x => init_check (is_root s) (is_sr s) x = None) xs ->
+  snd (extend s xs) = None /\ items (fst (extend s xs)) = items s ++ xs.
+Proof.
+  induction xs as [|x xs IH]; intros s H; cbn [extend]; [split; [reflexivity|now rewrite app_nil_r]|].
+  inversion H as [|? ? Hx Hxs]; subst. unfold append, add_check. rewrite Hx.
+  destruct (IH (St (items s ++ [x]) (lut_add (lut s) x) (is_root s) (is_sr s)) Hxs) as [E1 E2].
+  split; [exact E1|]. rewrite E2. cbn [items]. rewrite <- app_assoc. reflexivity.
+Qed.
+
+(* with the sequence itself as argument the list is doubled: every item is already in the sequence,
+   so none is refused; index, rule and flags are kept *)
+Theorem extend_self_spec s : Inv s -> Strict s ->
+  snd (extend s (items s)) = None /\ items (fst (extend s (items s))) = items s ++ items s /\
+  Inv (fst (extend s (items s))) /\ Strict (fst (extend s (items s))) /\
+  is_root (fst (extend s (items s))) = is_root s /\ is_sr (fst (extend s (items s))) = is_sr s.
+Proof.
+  intros HI HS. destruct (extend_all_good (items s) s HS) as [E1 E2].
+  split; [exact E1|]. split; [exact E2|]. split; [apply extend_inv, HI|].
+  split; [apply (strict_step s (Extend (items s))), HS|apply extend_flags].
+Qed.
+
 (* ---- count ---------------------------------------------------------------------------------------- *)
 Theorem count_spec s x : count s x = Z.of_nat (count_occ item_eq_dec (items s) x).
 Proof.
@@ -458,11 +482,12 @@ Qed.
 Theorem xstep_err_unchanged s o e : Inv s -> snd (xstep s o) = Err e ->
   match o with
   | Op (Extend _) | Op (IAdd _) => True
-  | Reverse | Clear => True      (* cannot fail in a reachable state: reverse_spec, clear_spec *)
+  | Reverse | Clear | ExtendSelf | IAddSelf => True   (* cannot fail in a reachable state: reverse_spec, clear_spec,
+                                                         extend_self_spec *)
   | _ => fst (xstep s o) = s
   end.
 Proof.
-  intros HI. destruct o as [o| i | x | | ]; cbn [xstep fst snd]; try exact (fun _ => I).
+  intros HI. destruct o as [o| i | x | | | | ]; cbn [xstep fst snd]; try exact (fun _ => I).
   - intros H. assert (Hs : exists e', snd (step s o) = Some e') by (destruct (snd (step s o)); [eauto|discriminate]).
     destruct Hs as [e' He']. pose proof (step_err_unchanged s o e' HI He') as Hu.
     destruct o; try exact I; exact Hu.
